@@ -32,6 +32,8 @@ def run(db, chk) -> None:
     _rounding(db, chk)
     _shift(db, chk)
     check_end_coherence(db, chk, "C01.R5-end-coherence")
+    from .c11 import check_reencoding
+    check_reencoding(db, chk, "C01.R6-re-encoding")     # after loading a set of ranks every rank's rows decode to the file's names
     _yaml(db, chk)
     _load(db, chk)
 
